@@ -14,13 +14,13 @@ META = dict(
                '+ differential correspondence on pairs/triples/sorts + the laws as a direct oracle, incl. an exhaustive small-scope triple sweep'),
     design_ref='DESIGN.md §5 C06; design/C06.md',
     level_text=('Theorems (all values of the quantifier: None, MISSING, bool/int/finite float, str, list/pg.List, tuples of one comparable family, '
-                'dict/pg.Dict with unique str/int keys (bool / integral float keys as their int) in any order, objects of any classes incl. different classes sharing a __qualname__, any nesting depth): eq is an equivalence, ne its negation, '
-                'eq implies equal hash pre-image, lt never raises, trichotomy, transitivity, irreflexivity, gt is flip, sorting never raises and returns a sorted permutation, '
+                'dict/pg.Dict with unique str/int/float keys (bool / integral float keys as their int) in any order, objects of any classes incl. different classes sharing a __qualname__, any nesting depth): eq is an equivalence, ne its negation, '
+                'eq implies equal hash pre-image, lt never raises, trichotomy, transitivity, irreflexivity, gt is flip, sorting never raises and returns a sorted permutation which is THE stable sort (so the insertion sort of the model equals any stable sort, e.g. timsort), '
                 'object ==/!=/hash() agree, the `left is right` shortcut is invisible, eq_f / lt_f are the interpretation of the regenerated branch order. Tie: the type-order table and the branch order of base.eq / base.lt are regenerated every run and ranks_ok / dispatch_ok re-proved; model and implementation are run on the same '
                 'pairs/triples/sort inputs (>= 40 % equal up to representation); the laws themselves are evaluated on the real objects on every case, and on all ~1.7 million ordered triples of a 119-value small-scope set.'),
     level_note=('Trusted: Coq kernel; translators harness/translators/type_order.py and compare_dispatch.py; extraction (ExtrOcamlBasic) cross-checked against vm_compute; CPython hash() is a function of the ==-class of a leaf '
                 'and of the element hashes for tuple/frozenset. Not modelled: identity between nested sub-objects (only top-level `left is right`), user-overridden sym_eq/sym_lt, callables, sets (Python `<` on sets is the subset order, not total), NaN/inf (excluded), '
-                'tuples containing containers or mutually incomparable primitives (outside the quantifier), non-integral float dict keys, the id-based hash of classes that do not opt in.'),
+                'tuples containing containers / objects or mutually incomparable primitives (outside the quantifier; Python compares and hashes their items natively), functions (pg.lt of two functions raises TypeError), pg.Ref (overrides sym_eq by identity of the referent), the id-based hash of classes that do not opt in.'),
     rule=('a case is an ordered pair, a triple, or a list to sort, of value trees; distinct by the canonical trees; a pair is non-trivial when at least one side is a container/object '
           'or the two leaves have different Python types'),
     trusted_base=['translator harness/translators/type_order.py (fail-closed ast reader of _type_order)',
@@ -560,6 +560,8 @@ def sort_laws(ts):
   for i in range(len(idx) - 1):
     if _try(lambda: pg.lt(objs[idx[i + 1]], objs[idx[i]])) != ('ok', False):
       return [('sort-not-sorted', 'result has an element less than its predecessor')]
+    if idx[i + 1] < idx[i] and _try(lambda: pg.lt(objs[idx[i]], objs[idx[i + 1]])) != ('ok', True):
+      return [('sort-not-stable', 'two items that are not less than each other come out in swapped order')]
   return []
 
 def sub_pairs(ta, tb):
